@@ -12,7 +12,7 @@ pub struct Base<'a> {
     pub insts: &'a [AInst],
 }
 
-pub const N_MUTATORS: usize = 17;
+pub const N_MUTATORS: usize = 18;
 
 fn to_bytes(w: &[u32]) -> Vec<u8> {
     crate::util::words_to_bytes(w)
@@ -319,6 +319,55 @@ pub fn mutate(rng: &mut Rng, b: &Base, m: usize) -> (Vec<u8>, String) {
                 w.extend_from_slice(&b.words[at..]);
             }
             (to_bytes(&w), format!("module header (kind {}) embedded before instruction #{}", kind, j + 1))
+        }
+        16 => {
+            // an id defined twice: a numeric type re-declared with another width / kind / signedness (before or
+            // after its users), a value or function id defined again by a copy of its instruction or by another
+            // instruction; or a wrapper in front of the module (length-prefixed blob, padding)
+            let d = db();
+            let mut w = b.words.to_vec();
+            let defs: Vec<usize> = (0..b.insts.len()).filter(|i| b.insts[*i].rid.is_some()).collect();
+            let kind = rng.below(5);
+            if kind == 4 || defs.is_empty() {
+                let n = (w.len() * 4) as u32;
+                let prefix: Vec<u32> = match rng.below(5) {
+                    0 => vec![n],
+                    1 => vec![n.wrapping_sub(4)],
+                    2 => vec![n / 4],
+                    3 => vec![0],
+                    _ => vec![n, 0],
+                };
+                let mut out = prefix.clone();
+                out.extend(w);
+                if rng.chance(1, 2) {
+                    out[0] = (out.len() as u32 * 4).wrapping_sub(4);
+                }
+                return (to_bytes(&out), format!("module wrapped behind {} prefix word(s)", prefix.len()));
+            }
+            let j = *rng.pick(&defs);
+            let inst = &b.insts[j];
+            let id = inst.rid.unwrap();
+            let is_num = inst.opname() == "TypeInt" || inst.opname() == "TypeFloat";
+            let again: Vec<u32> = if is_num || kind == 0 {
+                let width = *rng.pick(&[0u32, 8, 16, 32, 64, 128, 33]);
+                if rng.chance(1, 2) {
+                    vec![(4 << 16) | d.inst("TypeInt").opcode as u32, id, width, rng.below(2) as u32]
+                } else {
+                    vec![(3 << 16) | d.inst("TypeFloat").opcode as u32, id, width]
+                }
+            } else if kind == 1 {
+                // the same instruction again
+                let e = if j + 1 < b.starts.len() { b.starts[j + 1] } else { b.words.len() };
+                b.words[b.starts[j]..e].to_vec()
+            } else {
+                vec![(3 << 16) | d.inst("Undef").opcode as u32, id.wrapping_add(1), id]
+            };
+            let after = rng.range(j + 1, b.starts.len());
+            let at = if after < b.starts.len() { b.starts[after] } else { w.len() };
+            let tail = w.split_off(at);
+            w.extend(again);
+            w.extend(tail);
+            (to_bytes(&w), format!("id %{} of instruction #{} defined again before instruction #{}", id, j + 1, after + 1))
         }
         _ => {
             // two mutations stacked
